@@ -485,6 +485,13 @@ class Root(Composite):
         s = _base(self.name, kind, n, m, batch, dtype, rng)
         if kind == "pd":
             # a well-conditioned square factor (a PD child would square its condition number)
+            if rng.random() < 0.35:
+                # a square NON-triangular factor: a dense symmetric PD matrix of condition number 3 used as the root (A = R R^T = R^2)
+                c = _gen(rng, "pd", n, n, batch, 0, dtype, allow=["Dense"])
+                if c is not None and c["cls"] == "Dense":
+                    c["opt"]["kappa"] = 3.0
+                    s["children"] = [c]
+                    return s
             s["children"] = [_gen(rng, "tril", n, n, batch, min(depth, 1), dtype)]
         else:
             r = rng.choice([1, 2, n, n + 1])
@@ -865,8 +872,19 @@ class _Block(Composite):
         kind = self.offer(kind, n, m, batch, depth)
         s = _base(self.name, kind, n, m, batch, dtype, rng)
         k, b = rng.choice([f for f in factorizations(n) if f[0] > 1])
-        s["children"] = [_gen(rng, kind, b, b, list(batch) + [k], depth - 1, dtype)]
+        # position of the block dimension among the base's batch dimensions (the constructor's block_dim argument): last (the
+        # default, -3) most of the time, otherwise anywhere - with two batch dimensions behind it block_dim reaches -5
+        L = len(batch)
+        pos = L if (L == 0 or rng.random() < 0.6) else rng.randrange(0, L + 1)
+        s["opt"]["block_pos"] = pos
+        s["children"] = [_gen(rng, kind, b, b, list(batch)[:pos] + [k] + list(batch)[pos:], depth - 1, dtype)]
         return s
+
+    @staticmethod
+    def _block_dim(spec):
+        L = len(spec["batch"])
+        pos = spec["opt"].get("block_pos", L)
+        return pos, pos - (L + 1) - 2
 
 
 @register
@@ -874,7 +892,9 @@ class BlockDiag(_Block):
     name = "BlockDiag"
 
     def build(self, spec, g, kids):
-        return _O().BlockDiagLinearOperator(kids[0].op), model.blockdiag(kids[0].dense), kids[0].tensors
+        pos, bd = self._block_dim(spec)
+        op = _O().BlockDiagLinearOperator(kids[0].op) if bd == -3 else _O().BlockDiagLinearOperator(kids[0].op, block_dim=bd)
+        return op, model.blockdiag(kids[0].dense.movedim(pos, len(spec["batch"]))), kids[0].tensors
 
 
 @register
@@ -882,7 +902,9 @@ class BlockInterleaved(_Block):
     name = "BlockInterleaved"
 
     def build(self, spec, g, kids):
-        return _O().BlockInterleavedLinearOperator(kids[0].op), model.interleave(kids[0].dense), kids[0].tensors
+        pos, bd = self._block_dim(spec)
+        op = _O().BlockInterleavedLinearOperator(kids[0].op) if bd == -3 else _O().BlockInterleavedLinearOperator(kids[0].op, block_dim=bd)
+        return op, model.interleave(kids[0].dense.movedim(pos, len(spec["batch"]))), kids[0].tensors
 
 
 @register
@@ -897,11 +919,16 @@ class SumBatch(Composite):
     def make(self, rng, kind, n, m, batch, depth, dtype):
         s = _base(self.name, kind, n, m, batch, dtype, rng)
         k = rng.choice([1, 2, 3])
-        s["children"] = [_gen(rng, kind, n, m, list(batch) + [k], depth - 1, dtype)]
+        L = len(batch)
+        pos = L if (L == 0 or rng.random() < 0.6) else rng.randrange(0, L + 1)
+        s["opt"]["block_pos"] = pos
+        s["children"] = [_gen(rng, kind, n, m, list(batch)[:pos] + [k] + list(batch)[pos:], depth - 1, dtype)]
         return s
 
     def build(self, spec, g, kids):
-        return _O().SumBatchLinearOperator(kids[0].op), kids[0].dense.sum(-3), kids[0].tensors
+        pos, bd = _Block._block_dim(spec)
+        op = _O().SumBatchLinearOperator(kids[0].op) if bd == -3 else _O().SumBatchLinearOperator(kids[0].op, block_dim=bd)
+        return op, kids[0].dense.sum(pos), kids[0].tensors
 
 
 @register
